@@ -66,7 +66,7 @@ impl Shrink for Case {
     }
 }
 
-fn arb_case() -> BoxedStrategy<Case> {
+pub fn arb_case() -> BoxedStrategy<Case> {
     let cfg = GenCfg { utf8: true, max_big: 4097, max_children: 5 };
     prop_oneof![
         1 => (arb_tt(1), prop::collection::vec(any::<u8>(), 0..256)).prop_map(|(tt, bytes)| Case { src: Src::Random { tt, bytes } }),
@@ -259,7 +259,7 @@ pub fn run(ctx: &Ctx) -> i32 {
     // come back (C07 decides *what* it answers), the process must not die
     {
         let exe = std::env::current_exe().unwrap();
-        if let Ok(o) = std::process::Command::new(exe).args(["C07", "--deep-probe"]).output() {
+        if let Ok(o) = std::process::Command::new(exe).args(["C07", "--deep-probe"]).env("VERIF_DEEP_CONTINUE", "1").output() {
             let so = String::from_utf8_lossy(&o.stdout).to_string();
             {
                 let mut r = rec.borrow_mut();
